@@ -21,6 +21,8 @@ structure COp where
   mode : OpMode
   cb : Nat
   out : Outcome
+  /-- async programs: the callback sits behind a pending point that is ready once this gate is open (0: none) -/
+  gate : Nat := 0
   deriving Repr, Inhabited
 
 def mix (v c : Int) : Int := (v * 7 + c) % 1000003
@@ -162,14 +164,20 @@ def parseMode : String → Option OpMode
   | "init" => some .init | "map" => some .map | "andThen" => some .andThen | "then" => some .then_
   | "inspect" => some .inspect | "orElse" => some .orElse | "mapErr" => some .mapErr | _ => none
 
-/-- `mode:cb:outcome` -/
+/-- `mode:cb:outcome[:gate]` -/
 def parseCOp (s : String) : Option COp :=
   match s.splitOn ":" with
   | [m, cb, o] => do
     let m ← parseMode m
     let cb ← cb.toNat?
     let o ← parseOutcome o
-    pure ⟨m, cb, o⟩
+    pure ⟨m, cb, o, 0⟩
+  | [m, cb, o, g] => do
+    let m ← parseMode m
+    let cb ← cb.toNat?
+    let o ← parseOutcome o
+    let g ← g.toNat?
+    pure ⟨m, cb, o, g⟩
   | _ => none
 
 /-- WORLD := item (";" item)*   with
